@@ -179,3 +179,104 @@ package modcache
 //@   ensures [complete] result1 == nil ==> dirState == 2 && !partial
 //@   ensures [unlocked] !held
 //@   assigns heap
+
+// ---- C16: "a cached zip is either absent or complete" ----
+//
+// Ghost state of the zip file of the version being fetched and of the temporary
+// file this process writes:
+//   zipState: 0 absent, 1 incomplete content visible under the final name, 2 complete
+//   tmpState: 0 none, 1 created / partially written, 2 fully written, 3 fully written and closed
+// CIz must hold after every effect: a crash between any two effects leaves the
+// final name absent or complete.
+//@ ghost var zipState int
+//@ ghost var tmpState int
+//@ spec func CIz() bool { zipState == 0 || zipState == 2 }
+
+// string functions over the abstract string sort
+//@ spec func fdir(p string) string
+//@ spec func fbase(p string) string
+//@ spec func quoted(p string) string
+//@ spec func hasPrefixS(s string, prefix string) bool
+//@ spec func globbed(p string, pattern string) bool
+//@ func path/filepath.Base
+//@   assumed A-ext filepath.Base
+//@   pure
+//@   ensures result == fbase(path)
+//@ func quoteGlob
+//@   assumed A-int: escapes the glob metacharacters of a directory name
+//@   pure
+//@   ensures result == quoted(s)
+// glob semantics (assumed): a path matching <quoted dir>/<b>*.tmp lies in that
+// directory and its base name starts with b
+//@ axiom glob_prefix: forall p, d, b string :: {globbed(p, joinPath(quoted(d), b + "*.tmp"))} globbed(p, joinPath(quoted(d), b + "*.tmp")) ==> fdir(p) == d && hasPrefixS(fbase(p), b)
+//@ func globEffect
+//@   assumed A-ext effect: filepath.Glob returns only paths that match the pattern
+//@   ensures result1 == nil ==> forall k int :: {result0[k]} 0 <= k && k < len(result0) ==> globbed(result0[k], pattern)
+
+//@ func statZip
+//@   assumed A-ext effect: os.Stat on the final zip name reports whether it exists
+//@   ensures result1 == nil <==> zipState != 0
+//@ func tempFileEffect
+//@   assumed A-int effect: creates <dir>/<prefix><random>.tmp exclusively (O_EXCL)
+//@   requires held && tmpState == 0
+//@   ensures result1 == nil ==> result0 != nil && tmpState == 1
+//@   ensures result1 != nil ==> tmpState == 0
+//@   assigns tmpState
+//@ func copyEffect
+//@   assumed A-ext effect: io.Copy into the temporary file: complete only when it returns nil
+//@   requires tmpState == 1
+//@   ensures result1 == nil ==> tmpState == 2
+//@   ensures result1 != nil ==> tmpState == 1
+//@   assigns tmpState
+//@ func closeTmpEffect
+//@   assumed A-ext effect: (*os.File).Close flushes the temporary file
+//@   ensures result == nil && old(tmpState) == 2 ==> tmpState == 3
+//@   ensures !(result == nil && old(tmpState) == 2) ==> tmpState == old(tmpState)
+//@   assigns tmpState
+//@ func renameZipEffect
+//@   assumed A-ext effect: os.Rename(tmp, zip) is atomic: the final name goes from absent to the content of tmp in one step
+//@   requires held && tmpState == 3
+//@   ensures result == nil ==> zipState == 2 && tmpState == 0
+//@   ensures result != nil ==> zipState == old(zipState) && tmpState == old(tmpState)
+//@   assigns zipState, tmpState
+//@ func removeOwnTmpEffect
+//@   assumed A-ext effect: os.Remove of this process's own temporary file
+//@   ensures tmpState == 0
+//@   assigns tmpState
+//@ func (*os.File).Name
+//@   assumed A-ext (*os.File).Name: pure
+//@   pure
+
+// the deferred cleanup: on error the temporary file is closed and removed; the
+// final name is not touched
+//@ func (*Cache).downloadZip1$1
+//@   strings abstract
+//@   may_panic
+//@   callsite (*os.File).Close#0 contract closeTmpEffect
+//@   callsite os.Remove#0 contract removeOwnTmpEffect
+//@   ensures zipState == old(zipState)
+//@   assigns tmpState
+
+// (P) C16: the zip appears under its final name only by an atomic rename of a
+// fully written and closed temporary file; every other effect leaves the final
+// name as it was; stale temporary files are removed only if they belong to this
+// zip (same directory, name starting with the zip's full file name — their
+// writers needed this version's lock, which is held).
+//@ func (*Cache).downloadZip1
+//@   strings abstract
+//@   may_panic
+//@   callsite os.Stat#0 contract statZip
+//@   callsite filepath.Glob#0 contract globEffect
+//@   callsite modcache.tempFile#0 contract tempFileEffect
+//@   callsite io.Copy#0 contract copyEffect
+//@   callsite (*os.File).Close#0 contract closeTmpEffect
+//@   callsite os.Rename#0 contract renameZipEffect
+//@   requires held && CIz() && tmpState == 0
+//@   loop 0 invariant -1 <= rangeindex && held && zipState == old(zipState) && tmpState == 0
+//@   loop 0 invariant forall k int :: {old[k]} 0 <= k && k < len(old) ==> fdir(old[k]) == filepath.Dir(zipfile) && hasPrefixS(fbase(old[k]), fbase(zipfile))
+//@   effect os.Remove#0 requires held && fdir(arg0) == filepath.Dir(zipfile) && hasPrefixS(fbase(arg0), fbase(zipfile))
+//@   effect os.Rename#0 requires arg1 == zipfile
+//@   always CIz()
+//@   ensures [complete] result == nil ==> zipState == 2
+//@   ensures [onlycomplete] zipState != old(zipState) ==> zipState == 2 && result == nil
+//@   assigns heap
